@@ -196,7 +196,9 @@ class CallMixin:
                 return EnumVal(ci, z3.simplify(out))
             raise Unsupported("enum by value")
         is_exc = self.lattice.is_exc_class(ci)
-        obj = Obj(ci, {}, frozen=ci.frozen)
+        from .values import site_ident
+        fr = self.frames[-1].func.qualname if self.frames and self.frames[-1].func else "?"
+        obj = Obj(ci, {}, frozen=ci.frozen, ident=z3.IntVal(site_ident(f"{ci.name}@{fr}:{getattr(node, 'lineno', 0)}")))
         if is_exc:
             obj.cls_t = self.lattice.const[ci.name]
             obj.fields["args"] = tuple(args)
